@@ -119,7 +119,117 @@ def check_C06(ctx):
     return finish_with_proofs(ctx)
 
 
-CHECKS = {'C03': check_C03, 'C06': check_C06}
+# ------------------------------------------------------------------ C01 -----
+def is_k1(pool, tid):
+    """Optional<X>/Result<E,X> whose X can start with NIL/ERR: finding K1"""
+    def amb(t):
+        for x in nopgen.walk(t):
+            if x[0] == 'opt' and x[1][0] == 'opt':
+                return True
+            if x[0] == 'res' and x[3][0] == 'res':
+                return True
+        return False
+    return amb(pool.types[tid])
+
+
+def dec_items_from_enc(S, suffix=''):
+    items = []
+    for r in S.run_enc():
+        if r['h'] and r['h']['st'] == '0':
+            hx = r['h']['bytes']
+            if suffix:
+                hx = (hx if hx != '-' else '') + suffix
+            items.append((r['tid'], hx, '-', r, None))
+    return items
+
+
+def check_C01(ctx):
+    proofs_or_violation(ctx, ['Properties_C01.v'])
+    S = CodecStreams(ctx)
+    pool = S.pool
+    broken = corr_enc(ctx, S, lambda r: None)
+    # decode what was written, with and without a continuation
+    dbroken = []
+    for suffix in ('', 'ff01'):
+        rows = S.run_dec(dec_items_from_enc(S, suffix))
+        for d in rows:
+            e = d['tag']
+            ctx.count('roundtrip' + ('+cont' if suffix else ''), d['case'], nontrivial=d['h'] is not None)
+            if d['h'] is None:
+                ctx.violate('harness-crash:dec', 'reader crashed: %s -> %s' % (d['case'][:160], d['hraw'][:300]), {'case': d['case'], 'output': d['hraw']})
+                continue
+            want = hexlen(e['h']['bytes'])
+            ok = d['h'].get('st') == '0' and val_eq(d['h'].get('val'), e['h']['dump']) and d['h'].get('consumed') == str(want)
+            if not ok:
+                sig = 'k1:nested-optional' if is_k1(pool, d['tid']) else 'roundtrip'
+                ctx.violate(sig, 'Read(Write(v)) != v or wrong byte count: wrote %s as %s, read back %s' % (e['h']['dump'][:120], e['h']['bytes'][:80], d['hraw'][:160]),
+                            {'type': type_desc(pool, d['tid']), 'value': e['h']['dump'], 'bytes': e['h']['bytes'], 'read': d['hraw'], 'case': d['case']})
+            elif not same(d['h'], d['m'], ('st', 'val', 'consumed')) and not (d['m'] and val_eq(d['h'].get('val'), d['m'].get('val')) and same(d['h'], d['m'], ('st', 'consumed'))):
+                dbroken.append(d)
+    # sequences of 2..4 values back to back on one stream
+    enc_ok = [r for r in S.run_enc() if r['h'] and r['h']['st'] == '0' and not is_k1(pool, r['tid'])]
+    seqs = []
+    for _ in range(300 if ctx.quick else 5000):
+        k = ctx.rng.randint(2, 4)
+        seqs.append([ctx.rng.choice(enc_ok) for _ in range(k)])
+    lines = ['seq ' + ' '.join('(T%d %s)' % (r['tid'], r['input']) for r in s) for s in seqs]
+    outs = run_harness(pool, lines)
+    for s, line, o in zip(seqs, lines, outs):
+        ctx.count('sequence', line)
+        if o.startswith(('CRASH', 'HARNESS')):
+            ctx.violate('harness-crash:seq', 'sequence crashed: ' + o[:300], {'case': line, 'output': o})
+            continue
+        parts = o.split(' | ')
+        reads = [sx.fields(x) for x in parts[1][3:].strip().strip('[]').split('] [')]
+        total = int(parts[2].split('=')[1])
+        pos, good = 0, len(reads) == len(s)
+        for r, f in zip(s, reads):
+            pos += hexlen(r['h']['bytes'])
+            good = good and f.get('st') == '0' and val_eq(f.get('val'), r['h']['dump']) and f.get('end') == str(pos)
+        if not good or pos != total:
+            ctx.violate('sequence', 'values written back to back did not read back in frame: ' + line[:200], {'case': line, 'output': o})
+    # every writer x reader pairing the type supports
+    sample = [r for r in enc_ok if 'handle' not in pool.caps[r['tid']]]
+    ctx.rng.shuffle(sample)
+    sample = sample[: (120 if ctx.quick else 2500)]
+    wkinds = ['buf', 'ped', 'cx', 'stream', 'fd', 'bbuf', 'bped']
+    rkinds = ['buf', 'ped', 'stream', 'fd', 'bbuf', 'bped', 'bstream', 'bfd']
+    wl = []
+    for r in sample:
+        size = int(r['h']['size'])
+        for k in wkinds:
+            wl.append((r, k, 'encw T%d %s %d %d %s' % (r['tid'], k, size + 3, size, r['input'])))
+    wo = run_harness(pool, [x[2] for x in wl])
+    rl = []
+    for (r, k, line), o in zip(wl, wo):
+        if o == 'unsupported':
+            continue
+        ctx.count('pairing-write:' + k, line)
+        f = sx.fields(o) if not o.startswith(('CRASH', 'HARNESS')) else {}
+        if f.get('st') != '0' or f.get('bytes') != r['h']['bytes']:
+            ctx.violate('writer:' + k, 'writer %s produced st=%s bytes=%s, expected %s: %s' % (k, f.get('st'), str(f.get('bytes'))[:80], r['h']['bytes'][:80], line[:160]),
+                        {'case': line, 'output': o, 'expected': r['h']['bytes']})
+            continue
+        if k == 'buf':   # the bytes are the same for every writer: read them with every reader
+            n = hexlen(f['bytes'])
+            cont = (f['bytes'] if f['bytes'] != '-' else '') + '7f'
+            for rk in rkinds:
+                rl.append((r, rk, n, 'decr T%d %s %d %s' % (r['tid'], rk, n, cont)))
+    ro = run_harness(pool, [x[3] for x in rl])
+    for (r, rk, n, line), o in zip(rl, ro):
+        if o == 'unsupported':
+            continue
+        ctx.count('pairing-read:' + rk, line)
+        f = sx.fields(o) if not o.startswith(('CRASH', 'HARNESS')) else {}
+        if f.get('st') != '0' or not val_eq(f.get('val'), r['h']['dump']) or f.get('consumed') != str(n):
+            ctx.violate('reader:' + rk, 'reader %s did not return the written value / byte count: %s -> %s' % (rk, line[:160], o[:200]),
+                        {'case': line, 'output': o, 'expected_value': r['h']['dump'], 'expected_consumed': n})
+    report_broken(ctx, broken, 'enc', 'Serializer::Write/GetSize = model enc/tsize')
+    report_broken(ctx, dbroken, 'dec', 'Deserializer::Read = model dec')
+    return finish_with_proofs(ctx)
+
+
+CHECKS = {'C01': check_C01, 'C03': check_C03, 'C06': check_C06}
 
 
 def run(pid, tier, seed, replay=None):
